@@ -13,3 +13,5 @@ java -XX:+UseSerialGC -Xmx2g -cp /opt/veriftools/tla/tla2tools.jar:/opt/veriftoo
 rm -rf ../work/meta-selftest
 grep -q '<<"Real_selftest", TRUE, TRUE, TRUE, TRUE, TRUE>>' ../work/selftest.log || { echo "Real selftest failed"; exit 2; }
 echo "setup ok"
+cd ..
+/venv/bin/python harness/pregen.py quick
